@@ -150,6 +150,15 @@ impl StateTemplate {
     }
 }
 
+/// A second occupied site appended to a one-site document: `wyckoff` is the symmetry list of the
+/// new site (the group's general site, or the identity alone for a site of multiplicity one).
+pub fn with_second_site(doc: &Value, wyckoff: &Value, x: f64, y: f64, phi: f64) -> Value {
+    let mut d = doc.clone();
+    let site = json!({"wyckoff": wyckoff, "x": x, "y": y, "angle": phi});
+    d["occupied_sites"].as_array_mut().unwrap().push(site);
+    d
+}
+
 pub fn params_of_json(doc: &Value) -> Params {
     Params {
         length: doc["cell"]["length"].as_f64().unwrap(),
@@ -239,6 +248,14 @@ impl AnyState {
             AnyState::Poly(s) => s.as_svg().to_string(),
             AnyState::Mol(s) => s.as_svg().to_string(),
             AnyState::Lj(s) => s.as_svg().to_string(),
+        }
+    }
+    /// Set one optimiser parameter of the live object through its basis handle (clamped by the crate).
+    pub fn set_basis_value(&self, index: usize, value: f64) {
+        match self {
+            AnyState::Poly(s) => s.generate_basis()[index].set_value(value),
+            AnyState::Mol(s) => s.generate_basis()[index].set_value(value),
+            AnyState::Lj(s) => s.generate_basis()[index].set_value(value),
         }
     }
     /// Current values of the optimiser's parameters, in the crate's own basis order.
